@@ -20,6 +20,8 @@ class ScopeState:
         state: Iterable[State],
     ) -> None:
         self._state: dict[type[State], State] = {type(element): element for element in state}
+        # lazily created defaults are kept apart, they are not a part of the scope state
+        self._defaults: dict[type[State], State] = {}
         freeze(self)
 
     def state[StateType: State](
@@ -34,10 +36,13 @@ class ScopeState:
         elif default is not None:
             return default
 
+        elif state in self._defaults:
+            return cast(StateType, self._defaults[state])
+
         else:
             try:
                 initialized: StateType = state()
-                self._state[state] = initialized
+                self._defaults[state] = initialized
                 return initialized
 
             except Exception as exc:
